@@ -61,7 +61,8 @@ def materialise(v: dict, root: str) -> str:
     body += (flines + [idline]) if pl.get("keyorder", 0) else ([idline] + flines)
     if d["fields"]:
         # a second message that takes its field list from the definition under edit (the documented `fields: OTHER` form)
-        body += ["  REUSE_M:"] + ([f"    fields: {d['name']}", f"    id: {d['id'] + 500}"] if pl.get("keyorder", 0) else [f"    id: {d['id'] + 500}", f"    fields: {d['name']}"])
+        rid = d["id"] + 500 + 7 * pl.get("reuseid", 0)
+        body += ["  REUSE_M:"] + ([f"    fields: {d['name']}", f"    id: {rid}"] if pl.get("keyorder", 0) else [f"    id: {rid}", f"    fields: {d['name']}"])
     unrelated = ["  UNREL%d:\n    id: %d\n    fields:\n      q: int16\n      r: int16" % (i, 2000 + i) for i in range(pl["unrelated"])]
     sbody = "      x: int32\n" + ("      y: int32\n" if pl.get("structbody", 0) else "")
     other = "struct_defs:\n  OTHER_S:\n    fields:\n" + sbody + "constants:\n  OTHER_C: 3\n"
@@ -266,7 +267,8 @@ def run(tier: str, seed: int) -> Dict[str, Any]:
                 if r0 is None or r1 is None:
                     continue
                 nreuse += 1
-                key_same = (d0["id"], d0["fields"]) == (d1["id"], d1["fields"])
+                p0, p1 = beh[k - 1]["v"]["place"], beh[k]["v"]["place"]
+                key_same = (d0["id"] + 7 * p0.get("reuseid", 0), d0["fields"]) == (d1["id"] + 7 * p1.get("reuseid", 0), d1["fields"])
                 if key_same and r0 != r1:
                     viol.append({"signature": f"C13/SensitiveToNoise/reuse-form:{a}", "replay": {"behaviour": beh[k - 1: k + 1], "hashes": [r0, r1]}})
                 if not key_same and r0 == r1:
